@@ -87,7 +87,8 @@ func checkC14(p *Program, r *Report) {
 		"the rest to FromBytes. C14.content: the block-filter function adds spent outpoints only for non-coinbase transactions and output scripts only when " +
 		"non-empty, through a map keyed by the entry bytes (de-duplication). C14.hash: filter hash = SHA256d(NBytes), header = SHA256d(filter hash ‖ previous " +
 		"header). C14.latch: every chain method of the builder tests the error latch first and returns the builder untouched on error; P > 32 and M > 2^32−1 " +
-		"set the latch. Not decided: the 64×64→128 multiply, the Golomb–Rice bit stream (value level)."
+		"set the latch. C14.mulhi: the range reduction is recognised as the schoolbook 32×32 high-word product ⌊v·N / 2^64⌋ (any other algorithm is reported as undecided). " +
+		"Not decided: the Golomb–Rice bit stream (value level)."
 	r.Trusted = []string{"wire.WriteVarInt/ReadVarInt = CompactSize", "chainhash.DoubleHashH", "BIP158-style constants stated in the property"}
 	bp := p.Pkg("gcs/builder")
 	if bp == nil {
